@@ -23,9 +23,9 @@ type tierSpec struct {
 
 var engine1Tiers = map[string]map[string]tierSpec{
 	"C08": {"quick": {3200, 150}, "thorough": {60000, 1500}},
-	"C10": {"quick": {560, 150}, "thorough": {16000, 1800}},
+	"C10": {"quick": {1000, 180}, "thorough": {16000, 1800}},
 	"C12": {"quick": {8000, 150}, "thorough": {160000, 1500}},
-	"C19": {"quick": {480, 120}, "thorough": {16000, 900}},
+	"C19": {"quick": {960, 120}, "thorough": {16000, 900}},
 }
 
 type merged struct {
